@@ -2,10 +2,14 @@
 From elements to boxes: mirror of `computed_values.display` / `compute_float`
 (weasyprint/css/computed_values.py), `make_box` and the structural part of `element_to_box` /
 `build_formatting_structure` (weasyprint/formatting_structure/build.py) for elements without
-generated content (no `::before` / `::after` / `::marker`, no footnotes, ordinary tags).
+footnotes and replaced elements, with `::before` / `::after` / `::marker` and the part of
+`content_to_boxes` / `compute_content_list` / `marker_to_box` that needs no layout context: strings
+(`attr()` is a string once computed), `open-quote` / `close-quote` / `no-open-quote` /
+`no-close-quote` with the shared quote depth, list markers whose text is given.
 No Mathlib.
 -/
 import WpModel.Model.AnonBoxes
+import WpModel.Gen.ContentTables
 
 namespace Wp.Bx
 
@@ -29,14 +33,57 @@ def computeFloat (float position : String) : String :=
 def boxTypeFromDisplay (d : List String) : Option BoxKind :=
   (Gen.displayTableAst.find? (fun e => e.1 == d.take 2)).map (·.2)
 
-/-- An element with the computed values of the inherited properties and the specified values of
-`display`, `float`, `position`; `tail` is the text following the element in its parent. -/
-inductive Dom where
-  | el (display : List String) (float position : String) (ws : WS) (cap capBottom : Bool)
-       (attrs : El) (text : Text) (kids : List Dom) (tail : Text)
+/-- `style['quotes']`. -/
+inductive Quotes where
+  | none | auto | pairs (opens closes : List Text)
   deriving Repr, Inhabited
 
-def Dom.tail : Dom → Text | .el _ _ _ _ _ _ _ _ _ t => t
+/-- The computed style of an element or pseudo-element as `element_to_box` reads it (`display`,
+`float`, `position` are the specified values: their computation is `blockify` / `computeFloat`). -/
+structure EStyle where
+  display : List String
+  float : String := "none"
+  position : String := "static"
+  ws : WS := .normal
+  tt : TT := .none
+  hyph : Bool := false
+  capBottom : Bool := false
+  listOutside : Bool := true        -- list_style_position == 'outside'
+  quotes : Quotes := .auto
+  deriving Repr, Inhabited
+
+/-- One item of a computed `content` list. -/
+inductive CItem where
+  | str (t : Text)
+  | quote (isOpen insert : Bool)      -- open-/close-quote (`insert`), no-open-/no-close-quote
+  deriving Repr, Inhabited
+
+/-- Computed `content`: `inhibit` (from `normal` / `none` on a pseudo-element) or a list. -/
+inductive Content where
+  | inhibit | items (l : List CItem)
+  deriving Repr, Inhabited
+
+/-- `::marker`: its style, its `content` (`inhibit`, computed from `normal`: the marker comes from
+`list-style-type`) and `counter_style.render_marker(list_style_type, value)` (`none`: type `none` or
+empty text). -/
+structure MarkerSpec where
+  st : EStyle
+  content : Content
+  typeText : Option Text
+  deriving Repr, Inhabited
+
+structure Pseudo where
+  st : EStyle
+  content : Content
+  deriving Repr, Inhabited
+
+/-- An element; `tail` is the text following it in its parent. -/
+inductive Dom where
+  | el (st : EStyle) (attrs : El) (marker : Option MarkerSpec) (before after : Option Pseudo)
+       (text : Text) (kids : List Dom) (tail : Text)
+  deriving Repr, Inhabited
+
+def Dom.tail : Dom → Text | .el _ _ _ _ _ _ _ t => t
 
 /-- `TextBox.anonymous_from(box, text)` -/
 def textBoxFrom (parent : KBox) (text : Text) : KBox :=
@@ -54,44 +101,166 @@ def addChild (parent : KBox) (acc : List KBox) (childBoxes : List KBox) (tail : 
       else textBoxFrom parent tail :: acc
     | [] => [textBoxFrom parent tail]
 
+/-- The part of a `Style` that comes from the computed style of an (pseudo-)element. -/
+def mkStyle (s : EStyle) (disp : List String) : Style :=
+  let fl := computeFloat s.float s.position
+  { flt := fl == "left" || fl == "right", foot := fl == "footnote",
+    abs := s.position == "absolute" || s.position == "fixed", run := s.position == "running",
+    ws := s.ws, tt := s.tt, hyph := s.hyph, capBottom := s.capBottom,
+    disp := if disp == ["table-header-group"] then .header
+            else if disp == ["table-footer-group"] then .footer else .other }
+
+/-- `quotes[min(quote_depth[0], len(quotes) - 1)]` (`IndexError` on an empty tuple). -/
+def quoteAt (qs : List Text) (depth : Nat) : Except BErr Text :=
+  match qs[min depth (qs.length - 1)]? with
+  | some q => .ok q
+  | none => .error .indexError
+
+/-- The text a quote keyword adds at depth `depth1` (the depth after the decrement of a closing
+keyword): nothing for `no-*-quote` and under `quotes: none`. -/
+def quoteText (q : Quotes) (isOpen insert : Bool) (depth1 : Nat) : Except BErr Text :=
+  match q with
+  | .none => .ok []
+  | .auto => if insert then quoteAt (if isOpen then Gen.autoQuotes.1 else Gen.autoQuotes.2) depth1 else .ok []
+  | .pairs opens closes => if insert then quoteAt (if isOpen then opens else closes) depth1 else .ok []
+
+/-- The loop of `compute_content_list` over strings and quotes: the text added so far, the quote
+depth. -/
+def contentText (q : Quotes) : List CItem → Text → Nat → Except BErr (Text × Nat)
+  | [], acc, depth => .ok (acc, depth)
+  | .str t :: rest, acc, depth => contentText q rest (acc ++ t) depth
+  | .quote isOpen insert :: rest, acc, depth =>
+    let depth1 := if !isOpen then depth - 1 else depth          -- max(0, depth - 1)
+    match quoteText q isOpen insert depth1 with
+    | .error e => .error e
+    | .ok t => contentText q rest (acc ++ t) (if isOpen then depth1 + 1 else depth1)
+
+/-- `content_to_boxes(style, parent_box, quote_depth, …)`: adjacent texts are merged into one
+text box; nothing for an empty text. -/
+def contentToBoxes (q : Quotes) (c : Content) (parent : KBox) (depth : Nat) : Except BErr (List KBox × Nat) :=
+  match c with
+  | .inhibit => .ok ([], depth)
+  | .items l =>
+    match contentText q l [] depth with
+    | .error e => .error e
+    | .ok (t, d) => .ok (if t.isEmpty then [] else [textBoxFrom parent t], d)
+
+/-- `marker_to_box(element, state, parent_style, …)` → zero or one box. -/
+def markerToBox (m : MarkerSpec) (attrs : El) (parentOutside : Bool) (depth : Nat) :
+    Except BErr (List KBox × Nat) :=
+  -- `make_box` comes before the test of `display: none`
+  let disp := blockify m.st.display m.st.float m.st.position false
+  match boxTypeFromDisplay disp with
+  | none => .error .keyError
+  | some k =>
+    let box := KBox.mk k (mkStyle m.st disp) attrs (initInst k attrs) [] [] []
+    if disp == ["none"] then .ok ([], depth)
+    else
+      -- (children, quote depth, the box the source variable `box` is bound to afterwards: the text box
+      -- made from `list-style-type` rebinds it, so the anonymous marker box inherits from that text box)
+      let children : Except BErr (List KBox × Nat × KBox) :=
+        match m.content with
+        | .items l =>
+          match contentToBoxes m.st.quotes (.items l) box depth with
+          | .error e => .error e
+          | .ok (cs, d) => .ok (cs, d, box)
+        | .inhibit =>
+          match m.typeText with
+          | some t =>
+            let tb0 := textBoxFrom box t
+            let tb := tb0.withStyle { tb0.st with ws := .preWrap }
+            .ok ([tb], depth, tb)
+          | none => .ok ([], depth, box)
+      match children with
+      | .error e => .error e
+      | .ok (cs, d, from_) =>
+        if cs.isEmpty then .ok ([], d)
+        else if parentOutside then
+          let mb := anonFrom .BlockBox from_ cs
+          .ok ([mb.withStyle { mb.st with abs := true }], d)
+        else .ok ([anonFrom .InlineBox from_ cs], d)
+
+/-- `before_after_to_box(element, pseudo_type, state, …)` → zero or one box. -/
+def beforeAfterToBox (p : Option Pseudo) (marker : Option MarkerSpec) (attrs : El) (depth : Nat) :
+    Except BErr (List KBox × Nat) :=
+  match p with
+  | none => .ok ([], depth)
+  | some p =>
+    let disp := blockify p.st.display p.st.float p.st.position false
+    if disp == ["none"] then .ok ([], depth)
+    else
+      match p.content with
+      | .inhibit => .ok ([], depth)
+      | .items l =>
+        match boxTypeFromDisplay disp with
+        | none => .error .keyError
+        | some k =>
+          let box := KBox.mk k (mkStyle p.st disp) attrs (initInst k attrs) [] [] []
+          let markers : Except BErr (List KBox × Nat) :=
+            if disp.contains "list-item" then
+              match marker with
+              | some m => markerToBox m attrs p.st.listOutside depth
+              | none => .error .keyError
+            else .ok ([], depth)
+          match markers with
+          | .error e => .error e
+          | .ok (ms, d1) =>
+            match contentToBoxes p.st.quotes (.items l) box d1 with
+            | .error e => .error e
+            | .ok (cs, d2) => .ok ([box.withKids (ms ++ cs)], d2)
+
 mutual
-/-- `element_to_box(element, …)` → list of boxes (empty for `display: none`). -/
-def elementToBox (root : Bool) : Dom → Except BErr (List KBox)
-  | .el display float position ws cap capBottom attrs text kids _ =>
-    let disp := blockify display float position root
-    if disp == ["none"] then .ok []
+/-- `element_to_box(element, …)` → list of boxes (empty for `display: none`) and the quote depth. -/
+def elementToBox (root : Bool) : Dom → Nat → Except BErr (List KBox × Nat)
+  | .el es attrs marker before after text kids _, depth =>
+    let disp := blockify es.display es.float es.position root
+    if disp == ["none"] then .ok ([], depth)
     else
       match boxTypeFromDisplay disp with
       | none => .error .keyError
       | some k =>
-        let fl := computeFloat float position
-        let st : Style :=
-          { flt := fl == "left" || fl == "right", foot := fl == "footnote",
-            abs := position == "absolute" || position == "fixed", run := position == "running",
-            ws := ws, cap := cap, capBottom := capBottom,
-            disp := if disp == ["table-header-group"] then .header
-                    else if disp == ["table-footer-group"] then .footer else .other }
-        let box := KBox.mk k st attrs (initInst k attrs) [] [] []
-        let acc := if text.isEmpty then [] else [textBoxFrom box text]
-        match elementKids box kids acc with
+        let box := KBox.mk k (mkStyle es disp) attrs (initInst k attrs) [] [] []
+        let markers : Except BErr (List KBox × Nat) :=
+          if disp.contains "list-item" then
+            match marker with
+            | some m => markerToBox m attrs es.listOutside depth
+            | none => .error .keyError
+          else .ok ([], depth)
+        match markers with
         | .error e => .error e
-        | .ok accRev =>
-          let box := box.withKids accRev.reverse
-          let box := (pw box false).1
-          .ok [ptt box]
-def elementKids (parent : KBox) : List Dom → List KBox → Except BErr (List KBox)
-  | [], acc => .ok acc
-  | d :: ds, acc =>
-    match elementToBox false d with
+        | .ok (ms, d1) =>
+          match beforeAfterToBox before marker attrs d1 with
+          | .error e => .error e
+          | .ok (bs, d2) =>
+            let acc0 := bs.reverse ++ ms.reverse
+            let acc := if text.isEmpty then acc0 else textBoxFrom box text :: acc0
+            match elementKids box kids acc d2 with
+            | .error e => .error e
+            | .ok (accRev, d3) =>
+              match beforeAfterToBox after marker attrs d3 with
+              | .error e => .error e
+              | .ok (as, d4) =>
+                let box := box.withKids (accRev.reverse ++ as)
+                let box := (pw box false).1
+                let box := ptt box
+                -- a list item holding only its outside marker gets a zero-width space
+                let box := if !ms.isEmpty && box.kids.length == 1 && es.listOutside then
+                    box.withKids (box.kids ++ [textBoxFrom box Gen.markerFiller])
+                  else box
+                .ok ([box], d4)
+def elementKids (parent : KBox) : List Dom → List KBox → Nat → Except BErr (List KBox × Nat)
+  | [], acc, depth => .ok (acc, depth)
+  | d :: ds, acc, depth =>
+    match elementToBox false d depth with
     | .error e => .error e
-    | .ok boxes => elementKids parent ds (addChild parent acc boxes d.tail)
+    | .ok (boxes, depth') => elementKids parent ds (addChild parent acc boxes d.tail) depth'
 end
 
 /-- `build_formatting_structure` for a tree whose root generates a box. -/
 def buildFormattingStructure (d : Dom) : Except BErr KBox :=
-  match elementToBox true d with
+  match elementToBox true d 0 with
   | .error e => .error e
-  | .ok [box] => createAnonymousBoxes box
+  | .ok ([box], _) => createAnonymousBoxes box
   | .ok _ => .error .keyError   -- no root box: the real code rebuilds with a block root (not modelled)
 
 end Wp.Bx
